@@ -709,7 +709,7 @@ class C19(Check):
         if comp == "store":
             return sx([2, calls, st, sch, res])
         ncalls = [len(l) for l in calls]
-        return sx([3, [[[list(p) for p in v] for v in f] for f in c["table"]], c["tree"], c["w0"], ncalls, sch, 1, res])
+        return sx([3, [[[list(p) for p in v] for v in f] for f in c["table"]], c["tree"], c["w0"], ncalls, st, sch, 1, res])
 
     def canon(self, obs):
         return [[list(r) for r in t] for t in obs["results"]]
